@@ -15,7 +15,10 @@ RULE = ('Programs drawn from the typed generator G (bias: empty IF/ELSE/'
         'ELSEIF/CASE bodies, single-line IF with ELSE, nested SELECT, '
         'several statements per line, empty loops and procedures), rendered '
         'under a drawn style, compiled at O0/O1/O2 with and without -g and '
-        'run with one drawn device script.  Non-trivial: accepted, >= 1 '
+        'run with one drawn device script; one case in four is instead a '
+        'program whose ON ERROR GOTO handlers carry on with GOTO / RETURN / '
+        'END and never RESUME, with failures in mid-expression inside GOSUB '
+        'routines, loops and at module level.  Non-trivial: accepted, >= 1 '
         'device event, and the program contains an empty block, a '
         'single-line IF with ELSE, a SELECT, or its -g code section differs '
         'from the plain one.  Distinct by hash of (text, script).')
@@ -44,8 +47,21 @@ def setup_worker(cfg):
     X.set_parse_cache(True)
 
 
+@st.composite
+def handler_programs(draw):
+    """ON ERROR GOTO handlers that never RESUME (the permitted exception
+    does not apply to them)."""
+    from props.c10 import error_programs
+    prog, stats = draw(error_programs(noresume=True))
+    stats = dict(stats, on_error_without_resume=1)
+    return prog, {}, stats
+
+
 def strategy(cfg):
-    return st.tuples(gen.programs(cfg['params']), gen.styles())
+    return st.tuples(
+        st.one_of(gen.programs(cfg['params']), gen.programs(cfg['params']),
+                  gen.programs(cfg['params']), handler_programs()),
+        gen.styles())
 
 
 def check_text(text, script, cfg, audit=False):
@@ -167,7 +183,8 @@ def check(case, cfg):
     shapes = cases.shape_classes(prog)
     interesting = bool(shapes & {
         'empty_if_body', 'empty_else_body', 'empty_case_body', 'empty_loop',
-        'empty_proc', 'ifline_else', 'Select'}) or info['code_differs']
+        'empty_proc', 'ifline_else', 'Select'}) or info['code_differs'] \
+        or bool(stats.get('on_error_without_resume'))
     nontrivial = info['accepted'] and info['events'] >= 1 and interesting
     cls = sorted(shapes & {
         'empty_if_body', 'empty_else_body', 'empty_case_body', 'empty_loop',
@@ -178,6 +195,8 @@ def check(case, cfg):
         cls.append('accepted')
     if info['resumed']:
         cls.append('executed_resume')
+    if stats.get('on_error_without_resume'):
+        cls.append('on_error_handler_without_resume')
     enc = None
     fl = []
     if failures:
